@@ -358,3 +358,422 @@ Proof.
   unfold opts_remove. intros H. apply filter_In in H. destruct H as [_ H].
   fold (keyed keys x) in H. destruct (keyed keys x); [discriminate | reflexivity].
 Qed.
+
+(* ------------------------------------------------------------------ outermost modified nodes *)
+(* Rewriter.apply_changes splices only the modified nodes that are not inside another modified
+   node.  For extents as the parser produces them (a laminar family: two extents are nested or
+   one ends before the other starts; non-empty; distinct nodes have distinct extents) the
+   extents that are kept are pairwise disjoint, every modified node is inside a kept one, and
+   the splice therefore changes only text inside the kept extents. *)
+Lemma pos_le_spec l1 c1 l2 c2 : pos_le l1 c1 l2 c2 = true <-> l1 < l2 \/ (l1 = l2 /\ c1 <= c2).
+Proof.
+  unfold pos_le. rewrite orb_true_iff, andb_true_iff, Nat.ltb_lt, Nat.eqb_eq, Nat.leb_le. tauto.
+Qed.
+Lemma pos_lt_spec a b : pos_lt a b = true <-> e_sl a < e_sl b \/ (e_sl a = e_sl b /\ e_sc a < e_sc b).
+Proof.
+  unfold pos_lt. rewrite orb_true_iff, andb_true_iff, !Nat.ltb_lt, Nat.eqb_eq. tauto.
+Qed.
+Lemma same_extent_spec a b : same_extent a b = true <->
+  e_sl a = e_sl b /\ e_sc a = e_sc b /\ e_el a = e_el b /\ e_ec a = e_ec b.
+Proof. unfold same_extent. rewrite !andb_true_iff, !Nat.eqb_eq. tauto. Qed.
+Lemma is_inside_spec x y : is_inside x y = true <->
+  same_extent x y = false /\ pos_le (e_sl y) (e_sc y) (e_sl x) (e_sc x) = true /\
+  pos_le (e_el x) (e_ec x) (e_el y) (e_ec y) = true.
+Proof. unfold is_inside. rewrite !andb_true_iff, negb_true_iff. tauto. Qed.
+
+(* y ends before x starts *)
+Definition ends_before (y x : edit) : Prop := pos_le (e_el y) (e_ec y) (e_sl x) (e_sc x) = true.
+Definition nonempty (x : edit) : Prop :=
+  pos_le (e_sl x) (e_sc x) (e_el x) (e_ec x) = true /\ ~ (e_sl x = e_el x /\ e_sc x = e_ec x).
+Definition laminar (es : list edit) : Prop :=
+  forall x y, In x es -> In y es ->
+    x = y \/ is_inside x y = true \/ is_inside y x = true \/ ends_before x y \/ ends_before y x.
+
+Ltac pos_unfold :=
+  repeat match goal with
+  | H : is_inside _ _ = true |- _ => apply is_inside_spec in H; destruct H as (? & ? & ?)
+  | H : pos_le _ _ _ _ = true |- _ => apply pos_le_spec in H
+  | H : ends_before _ _ |- _ => unfold ends_before in H
+  | H : same_extent _ _ = false |- _ =>
+      let E := fresh in assert (E : ~ (same_extent _ _ = true)) by (rewrite H; discriminate);
+      rewrite same_extent_spec in E; clear H
+  | H : nonempty _ |- _ => destruct H as [? ?]
+  end.
+
+Lemma is_inside_irrefl x : is_inside x x = false.
+Proof.
+  unfold is_inside. replace (same_extent x x) with true; [reflexivity|].
+  symmetry. apply same_extent_spec. auto.
+Qed.
+Lemma is_inside_trans x y z : is_inside x y = true -> is_inside y z = true -> is_inside x z = true.
+Proof.
+  intros H1 H2. pos_unfold. apply is_inside_spec. split; [|split].
+  - destruct (same_extent x z) eqn:E; [|reflexivity]. apply same_extent_spec in E. exfalso. lia.
+  - apply pos_le_spec. lia.
+  - apply pos_le_spec. lia.
+Qed.
+Lemma is_inside_asym x y : is_inside x y = true -> is_inside y x = true -> False.
+Proof. intros H1 H2. pos_unfold. lia. Qed.
+
+Definition containers (es : list edit) (x : edit) : list edit := filter (fun y => is_inside x y) es.
+
+Lemma containers_shrink es x y : is_inside x y = true -> In y es ->
+  length (containers es y) < length (containers es x).
+Proof.
+  intros Hxy Hy. unfold containers.
+  induction es as [|z es IH]; [contradiction|]. cbn [filter].
+  destruct (is_inside y z) eqn:Eyz.
+  - rewrite (is_inside_trans x y z Hxy Eyz). cbn [length].
+    destruct Hy as [->|Hy]; [rewrite is_inside_irrefl in Eyz; discriminate|]. specialize (IH Hy). lia.
+  - destruct Hy as [<-|Hy].
+    + rewrite Hxy. cbn [length].
+      assert (forall l, length (filter (fun y0 => is_inside z y0) l) <= length (filter (fun y0 => is_inside x y0) l)).
+      { induction l as [|w l IHl]; [cbn; lia|]. cbn [filter]. destruct (is_inside z w) eqn:E.
+        - rewrite (is_inside_trans x z w Hxy E). cbn [length]. lia.
+        - destruct (is_inside x w); cbn [length]; lia. }
+      specialize (H es). lia.
+    + specialize (IH Hy). destruct (is_inside x z); cbn [length]; lia.
+Qed.
+
+(* nothing is dropped: every modified node is a kept one or lies inside a kept one *)
+Theorem outermost_covers es x : In x es ->
+  exists y, In y (outermost es) /\ (x = y \/ is_inside x y = true).
+Proof.
+  remember (length (containers es x)) as n eqn:En. revert x En.
+  induction n as [n IH] using lt_wf_ind. intros x En Hx.
+  destruct (existsb (fun y => is_inside x y) es) eqn:E.
+  - apply existsb_exists in E. destruct E as (y & Hy & Hxy).
+    destruct (IH (length (containers es y)) ltac:(subst n; apply containers_shrink; assumption) y eq_refl Hy)
+      as (z & Hz & Hyz).
+    exists z. split; [exact Hz|]. right. destruct Hyz as [->|Hyz]; [exact Hxy | eapply is_inside_trans; eassumption].
+  - exists x. split; [|left; reflexivity]. unfold outermost. apply filter_In. split; [exact Hx|]. now rewrite E.
+Qed.
+
+Lemma outermost_In es x : In x (outermost es) -> In x es /\ forall y, In y es -> is_inside x y = false.
+Proof.
+  unfold outermost. intros H. apply filter_In in H. destruct H as [H1 H2]. split; [exact H1|].
+  intros y Hy. apply negb_true_iff in H2.
+  destruct (is_inside x y) eqn:E; [|reflexivity].
+  assert (existsb (fun y0 => is_inside x y0) es = true) by (apply existsb_exists; eauto). congruence.
+Qed.
+
+(* the kept extents are pairwise disjoint *)
+Theorem outermost_disjoint es x y : laminar es ->
+  In x (outermost es) -> In y (outermost es) -> x = y \/ ends_before x y \/ ends_before y x.
+Proof.
+  intros L Hx Hy. apply outermost_In in Hx, Hy. destruct Hx as [Hx Nx]. destruct Hy as [Hy Ny].
+  destruct (L x y Hx Hy) as [E|[E|[E|[E|E]]]]; auto.
+  - rewrite (Nx y Hy) in E. discriminate.
+  - rewrite (Ny x Hx) in E. discriminate.
+Qed.
+
+(* ---- from pairwise disjoint extents, sorted as apply_changes sorts them, to the splice theorem ---- *)
+Lemma insert_desc_In x a l : In x (insert_desc a l) <-> x = a \/ In x l.
+Proof.
+  induction l as [|y l IH]; cbn [insert_desc]; [cbn; intuition|].
+  destruct (pos_lt y a); cbn [In]; [intuition|]. rewrite IH. intuition.
+Qed.
+Lemma sort_desc_In x l : In x (sort_desc l) <-> In x l.
+Proof.
+  induction l as [|a l IH]; [reflexivity|]. unfold sort_desc. cbn [fold_right].
+  fold (sort_desc l). rewrite insert_desc_In, IH. cbn. intuition.
+Qed.
+
+(* descending: no element starts before a later one *)
+Fixpoint desc (l : list edit) : Prop :=
+  match l with [] => True | x :: r => (forall y, In y r -> pos_lt x y = false) /\ desc r end.
+Lemma insert_desc_desc a l : desc l -> desc (insert_desc a l).
+Proof.
+  induction l as [|y l IH]; intros D; cbn [insert_desc].
+  - cbn. split; [intros y []|exact I].
+  - destruct D as [D1 D2]. destruct (pos_lt y a) eqn:E.
+    + cbn [desc]. split; [|split; assumption].
+      intros z [->|Hz].
+      * destruct (pos_lt a z) eqn:F; [|reflexivity]. apply pos_lt_spec in E, F. lia.
+      * destruct (pos_lt a z) eqn:F; [|reflexivity]. specialize (D1 z Hz).
+        apply pos_lt_spec in E, F. assert (pos_lt y z = true) by (apply pos_lt_spec; lia). congruence.
+    + cbn [desc]. split; [|apply IH; exact D2].
+      intros z Hz. apply insert_desc_In in Hz. destruct Hz as [->|Hz]; [exact E | apply D1; exact Hz].
+Qed.
+Lemma sort_desc_desc l : desc (sort_desc l).
+Proof.
+  induction l as [|a l IH]; [exact I|]. unfold sort_desc. cbn [fold_right]. apply insert_desc_desc. exact IH.
+Qed.
+
+(* (line, column) positions are mapped to offsets monotonically *)
+Definition monotone_on (offs : list nat) (es : list edit) : Prop :=
+  forall x y, In x es -> In y es ->
+    (ends_before x y -> pos_offset offs (e_el x) (e_ec x) <= pos_offset offs (e_sl y) (e_sc y)) /\
+    pos_offset offs (e_sl x) (e_sc x) <= pos_offset offs (e_el x) (e_ec x).
+
+Lemma desc_disjoint_asc offs len : forall l,
+  desc l ->
+  (forall x, In x l -> nonempty x) ->
+  (forall x y, In x l -> In y l -> x = y \/ ends_before x y \/ ends_before y x) ->
+  NoDup l ->
+  monotone_on offs l ->
+  (forall x, In x l -> pos_offset offs (e_el x) (e_ec x) <= len) ->
+  forall bound, (forall x, In x l -> bound <= pos_offset offs (e_sl x) (e_sc x)) ->
+  asc_ok bound len (rev (map (edit_off offs) l)) /\
+  (forall x, In x l -> True).
+Proof.
+  intros l. split; [|auto]. revert bound H5.
+  induction l as [|x r IH]; intros bound Hb; [exact I|].
+  cbn [map rev].
+  destruct H as [Dx Dr]. inversion H2 as [|? ? Nx Nr]; subst.
+  (* every later element ends before x starts *)
+  assert (B : forall y, In y r -> ends_before y x).
+  { intros y Hy. destruct (H1 x y (or_introl eq_refl) (or_intror Hy)) as [E|[E|E]]; [subst; contradiction| |exact E].
+    exfalso. specialize (Dx y Hy). pose proof (H0 x (or_introl eq_refl)) as Nex. pose proof (H0 y (or_intror Hy)) as Ney.
+    assert (~ (pos_lt x y = true)) by (rewrite Dx; discriminate). rewrite pos_lt_spec in H.
+    pos_unfold. lia. }
+  assert (IHr : asc_ok bound len (rev (map (edit_off offs) r))).
+  { apply IH; auto.
+    - intros; apply H0; right; assumption.
+    - intros; apply H1; right; assumption.
+    - intros a b Ha Hb'. apply H3; right; assumption.
+    - intros; apply H4; right; assumption.
+    - intros; apply Hb; right; assumption. }
+  (* append x at the end of an ascending list all of whose extents end before x starts *)
+  assert (G : forall L b, asc_ok b len L ->
+              (forall t, In t L -> snd (fst t) <= pos_offset offs (e_sl x) (e_sc x)) ->
+              b <= pos_offset offs (e_sl x) (e_sc x) ->
+              asc_ok b len (L ++ [edit_off offs x])).
+  { induction L as [|[[s e] nw] L IHL]; intros b A HL Hb0.
+    - cbn. destruct (H3 x x (or_introl eq_refl) (or_introl eq_refl)) as [_ M]. repeat split; auto.
+      apply H4. left. reflexivity.
+    - cbn [app asc_ok] in *. destruct A as (A1 & A2 & A3 & A4). repeat split; auto.
+      apply IHL; auto. + intros t Ht. apply HL. right. exact Ht. + apply (HL (s, e, nw)). left. reflexivity. }
+  apply G; [exact IHr | | apply Hb; left; reflexivity].
+  intros t Ht. apply in_rev in Ht. apply in_map_iff in Ht. destruct Ht as (y & <- & Hy).
+  cbn [edit_off fst snd]. destruct (H3 y x (or_intror Hy) (or_introl eq_refl)) as [M _]. apply M, B, Hy.
+Qed.
+
+(* Splicing the outermost modified extents, last one first, changes only the text inside them:
+   the result is the text with exactly those extents replaced (splice), for every laminar family
+   of non-empty, pairwise distinct extents whose positions denote offsets of the text. *)
+Theorem splice_outermost_local text es :
+  laminar es -> (forall x, In x es -> nonempty x) -> NoDup es ->
+  monotone_on (line_offsets text) es ->
+  (forall x, In x es -> pos_offset (line_offsets text) (e_el x) (e_ec x) <= length text) ->
+  apply_edits text es =
+  splice 0 text (rev (map (edit_off (line_offsets text)) (sort_desc (outermost es)))).
+Proof.
+  intros L NE ND M B. unfold apply_edits.
+  set (offs := line_offsets text). set (l := sort_desc (outermost es)).
+  assert (Hin : forall x, In x l -> In x (outermost es)) by (intros x; apply sort_desc_In).
+  assert (Hes : forall x, In x l -> In x es) by (intros x Hx; apply Hin in Hx; apply outermost_In in Hx; tauto).
+  assert (A : asc_ok 0 (length text) (rev (map (edit_off offs) l))).
+  { apply (desc_disjoint_asc offs (length text) l).
+    - apply sort_desc_desc.
+    - intros x Hx. apply NE, Hes, Hx.
+    - intros x y Hx Hy. apply (outermost_disjoint es); auto.
+    - (* NoDup is kept by filter and by the insertion sort *)
+      assert (NDo : NoDup (outermost es)) by (apply NoDup_filter; exact ND).
+      unfold l. clear - NDo. induction (outermost es) as [|a r IH]; [constructor|].
+      inversion NDo; subst. unfold sort_desc. cbn [fold_right]. fold (sort_desc r).
+      specialize (IH H2). assert (Na : ~ In a (sort_desc r)) by (rewrite sort_desc_In; exact H1).
+      clear - IH Na. induction (sort_desc r) as [|y s IHs]; cbn [insert_desc]; [constructor; [auto|constructor]|].
+      destruct (pos_lt y a); [constructor; assumption|].
+      inversion IH; subst. constructor.
+      + rewrite insert_desc_In. intros [->|H]; [apply Na; left; reflexivity | contradiction].
+      + apply IHs; [assumption | intros H; apply Na; right; exact H].
+    - intros x y Hx Hy. apply M; apply Hes; assumption.
+    - intros x Hx. apply B, Hes, Hx.
+    - intros; lia. }
+  rewrite <- (splice_local _ text A). rewrite rev_involutive.
+  clearbody l offs. clear. revert text. induction l as [|x r IH]; intros t; [reflexivity|]. cbn [fold_left map]. apply IH.
+Qed.
+
+(* ------------------------------------------------------------------ removing an assigned target *)
+Lemma firstn_app_exact {A} (a b : list A) : firstn (length a) (a ++ b) = a.
+Proof. rewrite firstn_app, Nat.sub_diag, firstn_all. cbn. apply app_nil_r. Qed.
+Lemma skipn_app_exact {A} (a b : list A) : skipn (length a) (a ++ b) = b.
+Proof. rewrite skipn_app, Nat.sub_diag, skipn_all. reflexivity. Qed.
+Lemma skipn_app3 {A} (a b c r : list A) : skipn (length a + length b + length c) ((a ++ b ++ c) ++ r) = r.
+Proof.
+  replace (length a + length b + length c) with (length (a ++ b ++ c)) by (rewrite !app_length; lia).
+  apply skipn_app_exact.
+Qed.
+Lemma find_eq_app name r : (forall c, In c name -> c <> 61%N) -> find_eq (name ++ 61%N :: r) = length name.
+Proof.
+  induction name as [|c name IH]; intros H; [reflexivity|]. cbn [app find_eq length].
+  assert (E : N.eqb c 61 = false) by (apply N.eqb_neq, H; left; reflexivity). rewrite E.
+  f_equal. apply IH. intros d Hd. apply H. right. exact Hd.
+Qed.
+Lemma span_ws_app ws r : forallb is_ws ws = true ->
+  match r with c :: _ => is_ws c = false | [] => True end -> span_ws (ws ++ r) = length ws.
+Proof.
+  induction ws as [|c ws IH]; intros H Hr.
+  - destruct r as [|c r]; [reflexivity|]. cbn. now rewrite Hr.
+  - cbn in H. apply andb_true_iff in H. destruct H as [H1 H2]. cbn [app span_ws length]. rewrite H1. f_equal. auto.
+Qed.
+
+(* rm_target of `name = value` removes exactly the statement and the white space after it:
+   everything before the statement and everything from the next non-blank character on is kept. *)
+Theorem rm_assign_exact (pre name ws1 value ws2 rest : list N) :
+  (forall c, In c name -> c <> 61%N) -> forallb is_ws ws1 = true -> forallb is_ws ws2 = true ->
+  match rest with c :: _ => is_ws c = false | [] => True end ->
+  rm_assign (pre ++ name ++ 61%N :: ws1 ++ value ++ ws2 ++ rest)
+            (length pre) (length (pre ++ name ++ 61%N :: ws1)) (length (pre ++ name ++ 61%N :: ws1) + length value)
+  = pre ++ rest.
+Proof.
+  intros Hn H1 H2 Hr. unfold rm_assign. unfold str, char in *.
+  set (head := pre ++ name ++ 61%N :: ws1).
+  assert (E : pre ++ name ++ 61%N :: ws1 ++ value ++ ws2 ++ rest = head ++ value ++ ws2 ++ rest).
+  { unfold head. rewrite <- ?app_assoc. cbn [app]. rewrite <- ?app_assoc. reflexivity. }
+  rewrite E. rewrite firstn_app_exact.
+  replace (length head + length value) with (length (head ++ value)) by apply app_length.
+  rewrite (app_assoc head value), skipn_app_exact.
+  assert (R1 : head ++ ws2 ++ rest = pre ++ (name ++ 61%N :: (ws1 ++ ws2) ++ rest)).
+  { unfold head. rewrite <- ?app_assoc. cbn [app]. rewrite <- ?app_assoc. reflexivity. }
+  rewrite R1. rewrite skipn_app_exact, firstn_app_exact.
+  rewrite find_eq_app by exact Hn.
+  replace (S (length name)) with (length (name ++ [61%N])) by (rewrite app_length; cbn; lia).
+  replace (name ++ 61%N :: (ws1 ++ ws2) ++ rest) with ((name ++ [61%N]) ++ (ws1 ++ ws2) ++ rest)
+    by (rewrite <- app_assoc; reflexivity).
+  rewrite (skipn_app_exact (name ++ [61%N]) ((ws1 ++ ws2) ++ rest)).
+  rewrite span_ws_app; [| rewrite forallb_app, H1, H2; reflexivity | exact Hr].
+  replace (length pre + length (name ++ [61%N]) + length (ws1 ++ ws2))
+    with (length (pre ++ (name ++ [61%N]) ++ (ws1 ++ ws2))) by (rewrite !app_length; lia).
+  replace (pre ++ (name ++ [61%N]) ++ (ws1 ++ ws2) ++ rest) with ((pre ++ (name ++ [61%N]) ++ (ws1 ++ ws2)) ++ rest)
+    by (rewrite <- !app_assoc; reflexivity).
+  f_equal. apply (skipn_app3 pre (name ++ [61%N]) (ws1 ++ ws2) rest).
+Qed.
+
+(* ------------------------------------------------------------------ positions of prefixes are ordered like offsets *)
+(* (l, c) is the position the lexer records for a point of the text (C02_token_positions) *)
+Definition at_prefix (text : str) (l c : nat) : Prop :=
+  exists pre rest, text = pre ++ rest /\ l = N.to_nat (line_of pre) /\ c = N.to_nat (col_of pre).
+
+Lemma prefix_pos_strict (p d : str) : d <> [] ->
+  pos_le (N.to_nat (line_of (p ++ d))) (N.to_nat (col_of (p ++ d))) (N.to_nat (line_of p)) (N.to_nat (col_of p)) = false.
+Proof.
+  intros Hd. destruct (pos_le _ _ _ _) eqn:E; [|reflexivity]. exfalso. apply pos_le_spec in E.
+  unfold line_of in E. rewrite count_nl_app in E.
+  destruct (N.eq_dec (count_nl d) 0) as [Z|NZ].
+  - rewrite (col_of_app_nonl p d Z) in E. rewrite Z in E.
+    assert (length d <> 0) by (destruct d; [contradiction | discriminate]). lia.
+  - lia.
+Qed.
+
+Lemma prefix_pos_le text p1 r1 p2 r2 :
+  text = p1 ++ r1 -> text = p2 ++ r2 ->
+  pos_le (N.to_nat (line_of p1)) (N.to_nat (col_of p1)) (N.to_nat (line_of p2)) (N.to_nat (col_of p2)) = true ->
+  length p1 <= length p2.
+Proof.
+  intros H1 H2 L. rewrite H1 in H2. apply app_eq_app in H2. destruct H2 as [d [[E _]|[E _]]].
+  - subst p1. destruct d as [|c d]; [rewrite app_nil_r; lia|].
+    rewrite prefix_pos_strict in L by discriminate. discriminate.
+  - subst p2. rewrite app_length. lia.
+Qed.
+
+Lemma at_prefix_offset text l c : at_prefix text l c ->
+  exists pre rest, text = pre ++ rest /\ l = N.to_nat (line_of pre) /\ c = N.to_nat (col_of pre) /\
+                   pos_offset (line_offsets text) l c = length pre.
+Proof.
+  intros (pre & rest & -> & -> & ->). exists pre, rest. repeat split. apply extent_offset.
+Qed.
+
+(* extents whose end points are positions of the text are mapped to offsets monotonically *)
+Theorem prefix_extents_monotone text es :
+  (forall x, In x es -> at_prefix text (e_sl x) (e_sc x) /\ at_prefix text (e_el x) (e_ec x) /\ nonempty x) ->
+  monotone_on (line_offsets text) es /\
+  (forall x, In x es -> pos_offset (line_offsets text) (e_el x) (e_ec x) <= length text).
+Proof.
+  intros H. split.
+  - intros x y Hx Hy. destruct (H x Hx) as (Sx & Ex & [Nx _]). destruct (H y Hy) as (Sy & _ & _).
+    apply at_prefix_offset in Sx, Ex, Sy.
+    destruct Sx as (p1 & r1 & T1 & L1 & C1 & O1). destruct Ex as (p2 & r2 & T2 & L2 & C2 & O2).
+    destruct Sy as (p3 & r3 & T3 & L3 & C3 & O3). split.
+    + intros B. unfold ends_before in B. rewrite O2, O3. rewrite L2, C2, L3, C3 in B.
+      exact (prefix_pos_le text p2 r2 p3 r3 T2 T3 B).
+    + rewrite O1, O2. rewrite L1, C1, L2, C2 in Nx. exact (prefix_pos_le text p1 r1 p2 r2 T1 T2 Nx).
+  - intros x Hx. destruct (H x Hx) as (_ & Ex & _). apply at_prefix_offset in Ex.
+    destruct Ex as (p2 & r2 & T2 & _ & _ & O2). rewrite O2, T2, app_length. lia.
+Qed.
+
+(* splice locality for the extents of real nodes: laminar, non-empty, distinct, with end points that
+   are positions of the text *)
+Theorem splice_outermost_nodes text es :
+  laminar es -> NoDup es ->
+  (forall x, In x es -> at_prefix text (e_sl x) (e_sc x) /\ at_prefix text (e_el x) (e_ec x) /\ nonempty x) ->
+  apply_edits text es =
+  splice 0 text (rev (map (edit_off (line_offsets text)) (sort_desc (outermost es)))).
+Proof.
+  intros L ND H. destruct (prefix_extents_monotone text es H) as [M B].
+  apply splice_outermost_local; auto. intros x Hx. apply H, Hx.
+Qed.
+
+(* ------------------------------------------------------------------ command sequences *)
+Inductive src_op := OpAdd (fs : list str) | OpRm (fs : list str).
+Definition op_files (o : src_op) : list str := match o with OpAdd fs | OpRm fs => fs end.
+
+Section Sequences.
+  Variable sort : list str -> list str.
+  Hypothesis sort_perm : forall l, Permutation (sort l) l.
+  Definition apply_src (l : list str) (o : src_op) : list str :=
+    match o with OpAdd fs => add_src sort l fs | OpRm fs => rm_src sort l fs end.
+
+  (* any sequence of add / rm commands leaves every file it does not name exactly as it was:
+     present iff it was present *)
+  Theorem src_sequence_frame ops : forall old x,
+    (forall o, In o ops -> ~ In x (op_files o)) ->
+    (In x (fold_left apply_src ops old) <-> In x old).
+  Proof.
+    induction ops as [|o ops IH]; intros old x H; [reflexivity|]. cbn [fold_left].
+    rewrite IH by (intros o' Ho'; apply H; right; exact Ho').
+    assert (Hx : ~ In x (op_files o)) by (apply H; left; reflexivity).
+    destruct o as [fs|fs]; cbn [apply_src op_files] in *.
+    - rewrite (add_src_spec sort sort_perm). tauto.
+    - apply (rm_src_others sort sort_perm). exact Hx.
+  Qed.
+End Sequences.
+
+Inductive kw_op (V : Type) := KwSet (k : str) (v : V) | KwDel (k : str).
+Arguments KwSet {V}. Arguments KwDel {V}.
+Definition kw_op_key {V} (o : kw_op V) : str := match o with KwSet k _ | KwDel k => k end.
+Definition apply_kw {V} (d : kws V) (o : kw_op V) : kws V :=
+  match o with KwSet k v => kw_set k v d | KwDel k => kw_del k d end.
+
+Lemma kw_others_comm {V} k k' (d : kws V) : kw_others V k (kw_others V k' d) = kw_others V k' (kw_others V k d).
+Proof.
+  unfold kw_others. induction d as [|[a v] d IH]; [reflexivity|]. cbn [filter fst].
+  destruct (str_eqb a k') eqn:E1, (str_eqb a k) eqn:E2; cbn [negb filter fst]; rewrite ?E1, ?E2; cbn [negb]; congruence.
+Qed.
+Lemma kw_del_is_others {V} k (d : kws V) : NoDup (kw_keys d) -> kw_del k d = kw_others V k d.
+Proof.
+  unfold kw_others. induction d as [|[a v] d IH]; intros N; [reflexivity|]. cbn [kw_del filter fst].
+  inversion N as [|? ? Na Nd]; subst. destruct (str_eqb a k) eqn:E; cbn [negb].
+  - apply str_eqb_eq in E. subst a. clear - Na. induction d as [|[b w] d IH]; [reflexivity|]. cbn [filter fst].
+    destruct (str_eqb b k) eqn:E.
+    + apply str_eqb_eq in E. subst. exfalso. apply Na. left. reflexivity.
+    + cbn [negb]. f_equal. apply IH. intros H. apply Na. right. exact H.
+  - f_equal. apply IH. exact Nd.
+Qed.
+
+(* any sequence of kwargs set / delete commands leaves every keyword it does not address with its
+   value and in its place relative to the other untouched keywords *)
+Theorem kw_sequence_frame {V} (ops : list (kw_op V)) : forall (d : kws V) (ks : list str),
+  (forall o, In o ops -> In (kw_op_key o) ks) ->
+  fold_right (fun k acc => kw_others V k acc) (fold_left apply_kw ops d) ks =
+  fold_right (fun k acc => kw_others V k acc) d ks.
+Proof.
+  induction ops as [|o ops IH]; intros d ks H; [reflexivity|]. cbn [fold_left].
+  rewrite IH by (intros o' Ho'; apply H; right; exact Ho').
+  assert (Hk : In (kw_op_key o) ks) by (apply H; left; reflexivity).
+  assert (G : forall k d1 d2, In k ks -> kw_others V k d1 = kw_others V k d2 ->
+            fold_right (fun k acc => kw_others V k acc) d1 ks = fold_right (fun k acc => kw_others V k acc) d2 ks).
+  { clear. intros k d1 d2. induction ks as [|a ks IHk]; intros Hin E; [contradiction|]. cbn [fold_right].
+    destruct Hin as [->|Hin].
+    - (* move the filter for k inside *)
+      assert (P : forall l dd, kw_others V k (fold_right (fun k0 acc => kw_others V k0 acc) dd l) =
+                             fold_right (fun k0 acc => kw_others V k0 acc) (kw_others V k dd) l).
+      { induction l as [|b l IHl]; intros dd; [reflexivity|]. cbn [fold_right]. rewrite kw_others_comm, IHl. reflexivity. }
+      rewrite !P, E. reflexivity.
+    - f_equal. apply IHk; assumption. }
+  apply (G (kw_op_key o)); [exact Hk|].
+  destruct o as [k v|k]; cbn [apply_kw kw_op_key].
+  - apply kw_set_others.
+  - apply kw_del_others.
+Qed.
